@@ -935,7 +935,18 @@ fn find_renaming_inner(imp: &DumpG, model: &DumpG, rows_ok: &dyn Fn(&HashMap<u64
             }
             used[j] = true;
             ren.insert(*id, model.nodes[j].0);
-            if go(i + 1, imp, model, used, ren, target, budget, rows_ok) {
+            // every relationship of the implementation whose two ends are assigned by now must exist in the model
+            // (with multiplicity): prunes the search when many new nodes look alike and differ only in what they hang on
+            let consistent = {
+                let mut need: HashMap<(u64, u64, &str, &str), i64> = HashMap::new();
+                for (_, s, t, ty, p) in &imp.rels {
+                    if (*s == *id || *t == *id) && ren.contains_key(s) && ren.contains_key(t) {
+                        *need.entry((ren[s], ren[t], ty.as_str(), p.as_str())).or_insert(0) += 1;
+                    }
+                }
+                need.iter().all(|((s, t, ty, p), n)| target.iter().filter(|x| x.0 == *s && x.1 == *t && x.2 == *ty && x.3 == *p).count() as i64 >= *n)
+            };
+            if consistent && go(i + 1, imp, model, used, ren, target, budget, rows_ok) {
                 return true;
             }
             ren.remove(id);
